@@ -227,11 +227,17 @@ let rec elab (env : env) (s : Sexp.t) : expr * ty =
     let name = str_of name in
     let decl = (match List.assoc_opt name env.recs with Some d -> d | None -> ill "record %s" name) in
     if List.length decl <> List.length fs then ill "record %s: field count" name;
-    let es = List.map2 (fun (fn, ft) f -> match f with
-        | L [g; e] -> if str_of g <> fn then ill "record %s: field %s" name (str_of g);
-          let ee, te = elab env e in expect ("field " ^ fn) ft te; ee
-        | _ -> ill "record field") decl fs in
-    ERecord (cl name, List.map (fun (fn, _) -> cl fn) decl, es), TRec name
+    (* the fields may be written in any order (each exactly once); they are evaluated, and emitted
+       as a keyed composite literal, in the order written *)
+    let seen = ref [] in
+    let named = List.map (fun f -> match f with
+        | L [g; e] ->
+          let fn = str_of g in
+          let ft = (match List.assoc_opt fn decl with Some t -> t | None -> ill "record %s: field %s" name fn) in
+          if List.mem fn !seen then ill "record %s: field %s twice" name fn; seen := fn :: !seen;
+          let ee, te = elab env e in expect ("field " ^ fn) ft te; (fn, ee)
+        | _ -> ill "record field") fs in
+    ERecord (cl name, List.map (fun (fn, _) -> cl fn) named, List.map snd named), TRec name
   | L [A "field"; e; f] ->
     let ee, te = elab env e in
     let f = str_of f in
